@@ -240,7 +240,6 @@ def reader_side(ck, pid):
     real_os, real_h5 = mod.os, mod.h5py
     try:
         def mk():
-            del opened[:]
             mod.os = types.SimpleNamespace(path=real_os.path, access=lambda *a: False, R_OK=real_os.R_OK)
             mod.h5py = types.SimpleNamespace(File=lambda *a, **k: opened.append(a))
             self_ = types.SimpleNamespace(access_mode="local", top_level_dir="/top", channel_name="ch", _cachedFilename=None, _cachedFile=None, rdcc_nbytes=1)
